@@ -1,4 +1,5 @@
-CONSTANTS DS = 16  DE = 24  Mut = "Overwrite"
+\* seeded fault "Overwrite" of the migration model: TLC must report a violation of NonDestructive
+CONSTANTS DS = 16  DE = 24  Mut = "Overwrite"  MaxFill = 1
 SPECIFICATION Spec
-INVARIANTS MigrationFaithful NonDestructive FailureClean AmbiguityRule MigrateTotal
+INVARIANTS NonDestructive
 CHECK_DEADLOCK FALSE
